@@ -157,7 +157,21 @@ func ObjOf(info *types.Info, e ast.Expr) types.Object {
 // SameObj reports that both expressions are identifiers of one object.
 func SameObj(info *types.Info, a, b ast.Expr) bool {
 	oa, ob := ObjOf(info, a), ObjOf(info, b)
-	return oa != nil && oa == ob
+	if oa != nil && oa == ob {
+		return true
+	}
+	// the same field of the same variable: v.f and v.f (a pair of locals gathered in a struct)
+	sa, ok1 := ast.Unparen(a).(*ast.SelectorExpr)
+	sb, ok2 := ast.Unparen(b).(*ast.SelectorExpr)
+	if ok1 && ok2 {
+		fa, fb := info.Uses[sa.Sel], info.Uses[sb.Sel]
+		if fa != nil && fa == fb {
+			if _, isVar := fa.(*types.Var); isVar {
+				return SameObj(info, sa.X, sb.X)
+			}
+		}
+	}
+	return false
 }
 
 // UsesObj reports whether obj is mentioned anywhere in n.
